@@ -1,4 +1,4 @@
 SPECIFICATION Spec
-CONSTANTS N = 4  P = 3  Locked = FALSE  PublishEarly = FALSE  MaxCalls = 2  MaxFails = 0  PublishOnFail = FALSE  Readers = {"r1", "r2"}
+CONSTANTS N = 4  P = 3  Locked = FALSE  PublishEarly = FALSE  MaxCalls = 2  MaxFails = 0  PublishOnFail = FALSE  PublishOnReadFail = FALSE  Readers = {"r1", "r2"}
 INVARIANTS LedgerUnaffected RespCommitted NoTornCache InOrder
 CHECK_DEADLOCK FALSE
